@@ -70,4 +70,3 @@ spec fn containers_expect(ts: Seq<ast::Type>, n: int) -> Seq<DP>
 {
     if n <= 0 { Seq::<DP>::empty() } else { containers_expect(ts, n - 1) + container_expect(ts[n - 1]) }
 }
-spec fn all_arity_ok(ts: Seq<ast::Type>) -> bool { forall |i: int| 0 <= i < ts.len() ==> arity_ok(#[trigger] ts[i]) }
